@@ -43,24 +43,59 @@ def main():
                 "findroot", "polyroots", "odefun", "chebyfit", "fourier", "invertlaplace", "invlaptalbot", "invlapstehfest", "invlapdehoog", "pslq", "findpoly", "identify",
                 "hyper2d", "appellf1", "appellf2", "appellf3", "appellf4", "richardson", "shanks", "levin", "cohen_alt", "differint", "difference", "eig", "eigh", "svd", "expm", "logm",
                 "zetazero", "nzeros", "secondzeta", "bell", "stirling1", "stirling2", "eulernum", "bernfrac", "primepi", "primepi2", "list_primes", "plot", "cplot", "splot"}
+    # direct calls of the loop families named in the property's anchors (asymptotic / Euler-Maclaurin / Newton loops that stop on a
+    # tolerance), with seeded moderate arguments at precisions up to a few thousand bits -- the documentation examples alone do not
+    # reach "small |z| at high precision", which is where an unreachable tolerance shows
+    def direct_blocks():
+        def num():
+            m = rng.choice([0.001, 0.125, 0.5, 1, 3, 10, 47.5, 1000, 123456.75]) * rng.choice([1, -1, 1])
+            return repr(m * rng.choice([1, 1.5, 0.75]))
+        def cnum():
+            return "mpc(%s, %s)" % (num(), num())
+        def arg():
+            return num() if rng.random() < 0.55 else cnum()
+        fams = [lambda: "psi(%d, %s)" % (rng.randint(0, 6), arg()), lambda: "digamma(%s)" % arg(), lambda: "harmonic(%s)" % arg(),
+                lambda: "zeta(%s)" % arg(), lambda: "zeta(%s, %s)" % (arg(), repr(abs(float(eval(num()))) + 0.25)), lambda: "loggamma(%s)" % arg(), lambda: "gamma(%s)" % arg(),
+                lambda: "rgamma(%s)" % arg(), lambda: "expint(%d, %s)" % (rng.randint(0, 4), arg()), lambda: "e1(%s)" % arg(), lambda: "ei(%s)" % arg(),
+                lambda: "erfc(%s)" % arg(), lambda: "erf(%s)" % arg(), lambda: "besselj(%s, %s)" % (num(), arg()), lambda: "besselk(%s, %s)" % (num(), arg()),
+                lambda: "lambertw(%s, %d)" % (arg(), rng.randint(-2, 2)), lambda: "polylog(%d, %s)" % (rng.randint(-2, 5), arg()), lambda: "agm(%s, %s)" % (arg(), arg()),
+                lambda: "airyai(%s)" % arg(), lambda: "ci(%s)" % arg(), lambda: "gammainc(%s, %s)" % (num(), arg())]
+        out = []
+        # a fixed grid for the polygamma family (the anchored Euler-Maclaurin loops): every order against small and moderate arguments
+        grid = ["0.5", "3", "mpc(10, 0.5)", "mpc(-3.5, 0.125)", "47.5", "mpc(0.125, -2)"]
+        for z in grid:
+            for m in (1, 2, 3, 5):
+                out.append(("direct/psi", ["psi(%d, %s)" % (m, z)]))
+            out.append(("direct/digamma", ["digamma(%s)" % z]))
+            out.append(("direct/harmonic", ["harmonic(%s)" % z]))
+        for k in range(chk.pick(45, 900)):
+            f = rng.choice(fams[:3]) if rng.random() < 0.35 else rng.choice(fams)
+            src = f()
+            out.append(("direct/%s" % src.split("(")[0], [src]))
+        return out
+    DIRECT_PRECS = chk.pick([53, 400, 1000], [53, 400, 1000, 3000])
+
     def exit_event(evs):
         return [e for e in evs if e["ev"] in ("return", "raise", "abandon")][-1]
     mp = mpmath.mp
     events, meta = [], {}
     overruns = []
+    stuck = {}
     def record(info, exit_, exc, work):
         eid = len(events)
         events.append(enc.event(eid, "call_exit", [], info["P"], "n", enc.sym("none"), pb=0,
                                 x={"exit": exit_, "exc": exc, "harness": exc in HARNESS_EXC, "work": min(work, 2 ** 30)}))
         meta[eid] = dict(info, exit=exit_, exc=exc, work=work)
     try:
-        for name, stmts in blocks:
-            for P in chk.pick([53, 400], [53, 200, 1000, 4000]):
+        for name, stmts in blocks + direct_blocks():
+            for P in (DIRECT_PRECS if name.startswith("direct/") else chk.pick([53, 400], [53, 200, 1000, 4000])):
                 # the numerical-calculus routines and integer sequences are exercised at the documented scale only: at a
                 # raised precision their documented examples are legitimately heavy (no verdict about termination possible)
                 if P > 53 and (name in CALCULUS or any(any(cn + "(" in s for cn in CALCULUS) for s in stmts)):
                     continue
                 ns = corpus.namespace(mpmath, mp)
+                if name.startswith("direct/") and stuck.get(name, 0) >= 2:
+                    continue                      # this family already failed to return twice: the verdict is made, do not wait for every grid point
                 for i, src in enumerate(stmts):
                     cand = [src]
                     for s2 in cand:
@@ -76,6 +111,7 @@ def main():
                         work = sw.inj.total
                         if sw.inj.budget_hit or last["ev"] == "abandon":
                             overruns.append((code, mode, ns, info))
+                            stuck[name] = stuck.get(name, 0) + 1
                         else:
                             record(info, last["ev"], last.get("exc", ""), work)
                 mp.prec = 53
@@ -88,6 +124,11 @@ def main():
             sw._call(code, mode, ns, "mp", "retry", info, None)
             last = exit_event(sw.rec.events)
             if sw.inj.budget_hit:
+                record(info, "budget", "", sw.inj.total)
+            elif last["ev"] == "abandon" and info["block"].startswith("direct/"):
+                # one evaluation of one function at a moderate argument: no return within the enlarged wall-clock limit (hundreds of
+                # seconds against milliseconds on the unchanged tree) is judged like an exhausted work budget -- expensive iterations
+                # at high precision accumulate kernel starts too slowly for the deterministic budget alone
                 record(info, "budget", "", sw.inj.total)
             elif last["ev"] == "abandon":
                 record(info, "abandon", "", sw.inj.total)
